@@ -42,9 +42,13 @@ def rot2(ctx, name, sigma=1):
     return Q
 
 
-def rot3(ctx, name, sigma=1):
-    """Cayley transform (I - S)(I + S)^-1 of a skew matrix: all rotations but half turns"""
-    a, b, c = ctx.var('ca_' + name), ctx.var('cb_' + name), ctx.var('cc_' + name)
+def rot3(ctx, name, sigma=1, fixed=None):
+    """Cayley transform (I - S)(I + S)^-1 of a skew matrix: all rotations but half turns
+    (fixed=(a, b, c): one concrete rational rotation instead of a symbolic one)"""
+    if fixed is not None:
+        a, b, c = [(float(Fraction(v)) if ctx.mode == 'float' else S.const(Fraction(v))) for v in fixed]
+    else:
+        a, b, c = ctx.var('ca_' + name), ctx.var('cb_' + name), ctx.var('cc_' + name)
     k = 1 + a * a + b * b + c * c
     Q = np.empty((3, 3), dtype=object)
     Q[0, 0] = (1 + a * a - b * b - c * c) / k
@@ -448,6 +452,124 @@ def h_eigh_repeated(ctx, D, P):
             ctx.eq(ld[1, p], np.array(mus[p], dtype=object), 'first-order eigenvalues are the eigenvalues of A_1 in ascending order')
 
 
+def _diagm(ctx, vals):
+    n = len(vals)
+    zero = 0.0 if ctx.mode == 'float' else S.const(0)
+    M = np.empty((n, n), dtype=object)
+    for i in range(n):
+        for j in range(n):
+            M[i, j] = vals[i] if i == j else zero
+    return M
+
+
+def _eigh_obligations(ctx, X, ld, Qd, D, P, n, what):
+    zero = 0.0 if ctx.mode == 'float' else S.const(0)
+    for p in range(P):
+        Qc, Ac = coefs(Qd, p), coefs(X, p)
+        Lc = [_diagm(ctx, [ld[d, p, i] for i in range(n)]) for d in range(D)]
+        QLQt = ps_matmul(ps_matmul(Qc, Lc, D), tr(Qc), D)
+        QtQ = ps_matmul(tr(Qc), Qc, D)
+        I = eye_series(n, D, ctx)
+        for d in range(D):
+            ctx.eq(QLQt[d], Ac[d], 'Q diag(lam) Qt==A order %d dir %d (%s)' % (d, p, what))
+            ctx.eq(QtQ[d], I[d], 'QtQ==I order %d dir %d (%s)' % (d, p, what))
+
+
+def h_eigh_split_late(ctx, D, P):
+    """2x2, A(t) = lam0 I + t lam1 I + t^2 Q2 diag(nu) Q2^T + t^3 A3 + ...: the eigenvalue is repeated
+    at orders 0 AND 1 and splits at order 2.  The inner numpy.linalg.eigh calls see lam0 I, lam1 I
+    and then a block *computed* from the input that the solver proves equal to the constructed A2."""
+    algopy = symx.load_algopy()
+    n = 2
+    X = np.empty((D, P, n, n), dtype=object)
+    one = 1.0 if ctx.mode == 'float' else S.const(1)
+    nus = {}
+    for p in range(P):
+        I2 = _diagm(ctx, [one, one])
+        for d in range(min(2, D)):
+            lam = ctx.var('lam%d_%d' % (d, p))
+            Ad = _diagm(ctx, [lam, lam])
+            if ctx.mode == 'sym':
+                stubs.register('eigh', Ad, (np.array([lam, lam], dtype=object), I2))
+            X[d, p] = Ad
+        if D > 2:
+            Q2 = rot2(ctx, 'q2_%d' % p)
+            nu = [ctx.var('nu%d_%d' % (p, i)) for i in range(n)]
+            ctx.assume(nu[1] - nu[0] > 1)
+            nus[p] = nu
+            A2 = mat(mat(Q2, _diagm(ctx, nu)), Q2.T)
+            if ctx.mode == 'sym':
+                stubs.register('eigh', A2, (np.array(nu, dtype=object), Q2))
+            X[2, p] = A2
+        for d in range(3, D):
+            for i in range(n):
+                for j in range(n):
+                    X[d, p, i, j] = X[d, p, j, i] if j < i else ctx.var('A%d_%d[%d,%d]' % (d, p, i, j))
+    A = mk_utpm(ctx, algopy, X)
+    l, Q = algopy.eigh(A)
+    ld, Qd = plain(l.data), plain(Q.data)
+    _eigh_obligations(ctx, X, ld, Qd, D, P, n, 'eigenvalue repeated at orders 0 and 1')
+    for p in range(P):
+        for d in range(min(2, D)):
+            ctx.eq(ld[d, p, 0], ld[d, p, 1], 'lambda_%d repeated' % d)
+        if D > 2:
+            ctx.eq(ld[2, p], np.array(nus[p], dtype=object), 'second-order eigenvalues are the eigenvalues of A_2 in ascending order')
+    ctx.eq(plain(A.data), X, 'input unchanged')
+
+
+def h_eigh_pair3(ctx, D, P, where='low', fixed_Q0=None):
+    """3x3 with a repeated PAIR inside: A0 = Q0 diag(l, l, l3) Q0^T (where='low', l3 > l) or
+    diag(l1, l, l) (where='high'); A1 = Q0 M Q0^T with the 2x2 block of M that belongs to the pair
+    equal to R diag(mu) R^T (mu distinct), everything else arbitrary.  numpy.linalg.eigh is first
+    called on A0 (registered factors: any orthonormal basis of the eigenplane, Q0 is a generic
+    rotation) and then on the block (Q0^T A1 Q0)[pair, pair], which the code computes and the solver
+    proves equal to R diag(mu) R^T."""
+    algopy = symx.load_algopy()
+    n = 3
+    pair = (0, 1) if where == 'low' else (1, 2)
+    other = 2 if where == 'low' else 0
+    X = np.empty((D, P, n, n), dtype=object)
+    for p in range(P):
+        Q0 = rot3(ctx, 'p%d' % p, fixed=fixed_Q0)
+        l, lo = ctx.var('l_%d' % p), ctx.var('lo_%d' % p)
+        if where == 'low':
+            ctx.assume(lo - l > 1)
+            lam = [l, l, lo]
+        else:
+            ctx.assume(l - lo > 1)
+            lam = [lo, l, l]
+        A0 = mat(mat(Q0, _diagm(ctx, lam)), Q0.T)
+        if ctx.mode == 'sym':
+            stubs.register('eigh', A0, (np.array(lam, dtype=object), Q0))
+        X[0, p] = A0
+        if D > 1:
+            R = rot2(ctx, 'r%d' % p)
+            mu = [ctx.var('mu%d_%d' % (p, i)) for i in range(2)]
+            ctx.assume(mu[1] - mu[0] > 1)
+            B = mat(mat(R, _diagm(ctx, mu)), R.T)
+            if ctx.mode == 'sym':
+                stubs.register('eigh', B, (np.array(mu, dtype=object), R))
+            M = np.empty((n, n), dtype=object)
+            for a_, i in enumerate(pair):
+                for b_, j in enumerate(pair):
+                    M[i, j] = B[a_, b_]
+            for i in pair:
+                M[i, other] = M[other, i] = ctx.var('m%d_%d' % (p, i))
+            M[other, other] = ctx.var('mo_%d' % p)
+            X[1, p] = mat(mat(Q0, M), Q0.T)
+        for d in range(2, D):
+            for i in range(n):
+                for j in range(n):
+                    X[d, p, i, j] = X[d, p, j, i] if j < i else ctx.var('A%d_%d[%d,%d]' % (d, p, i, j))
+    A = mk_utpm(ctx, algopy, X)
+    l, Q = algopy.eigh(A)
+    ld, Qd = plain(l.data), plain(Q.data)
+    _eigh_obligations(ctx, X, ld, Qd, D, P, n, 'repeated pair inside a 3x3 matrix')
+    for p in range(P):
+        ctx.eq(ld[0, p, pair[0]], ld[0, p, pair[1]], 'lambda_0 of the pair repeated')
+    ctx.eq(plain(A.data), X, 'input unchanged')
+
+
 def h_svd(ctx, D, P):
     """2x2 SVD through the eigendecomposition of the Jordan-Wielandt matrix
     B = [[0, A], [A^T, 0]]: A0 = U0 diag(s) V0^T, s1 > s2 > 0"""
@@ -504,6 +626,101 @@ def h_svd(ctx, D, P):
             ctx.eq(USVt[d], Ac[d], 'U diag(s) Vt == A order %d dir %d' % (d, p))
             ctx.eq(UtU[d], I[d], 'UtU == I order %d dir %d' % (d, p))
             ctx.eq(VtV[d], I[d], 'VtV == I order %d dir %d' % (d, p))
+        if ctx.mode == 'sym':
+            ctx.holds(S.lift(sd[0, p, 0]) > S.lift(sd[0, p, 1]), 's_0 descending dir %d' % p)
+            ctx.holds(S.lift(sd[0, p, 1]) > 0, 's_0 positive dir %d' % p)
+        else:
+            ctx.fact(sd[0, p, 0] > sd[0, p, 1] > 0, 's_0 descending positive')
+    ctx.eq(plain(A.data), X, 'input unchanged')
+
+
+def svd_base(ctx, M, N, tag, fixed=False):
+    """zeroth coefficient A0 = U0 S V0^T (s1 > s2 > 0) of shape 2x2, 2x3 or 3x2 together with the
+    registrations UTPM.svd needs: eigh of the Jordan-Wielandt matrix [[0, A0], [A0^T, 0]] --
+    eigenvalues (-s1, -s2, [0,] s2, s1), eigenvectors (u_i; -+v_i)/sqrt(2) and (0; v_3) resp.
+    (u_3; 0) -- and, for the 3x3 factor, scipy.linalg.qr of its first two columns"""
+    zero = 0.0 if ctx.mode == 'float' else S.const(0)
+    one = 1.0 if ctx.mode == 'float' else S.const(1)
+    fx = ('1/2', '-1/3', '1/5') if fixed else None
+    U0 = rot2(ctx, 'U' + tag) if M == 2 else rot3(ctx, 'U' + tag, fixed=fx)
+    V0 = rot2(ctx, 'V' + tag) if N == 2 else rot3(ctx, 'V' + tag, fixed=fx)
+    s1, s2 = ctx.var('s%s_1' % tag), ctx.var('s%s_2' % tag)
+    ctx.assume(s2 > 1)
+    ctx.assume(s1 - s2 > 1)
+    Sm = np.empty((M, N), dtype=object)
+    Sm[...] = zero
+    Sm[0, 0], Sm[1, 1] = s1, s2
+    A0 = mat(mat(U0, Sm), V0.T)
+    if ctx.mode == 'sym':
+        T = M + N
+        B0 = np.empty((T, T), dtype=object)
+        B0[...] = zero
+        B0[:M, M:] = A0
+        B0[M:, :M] = A0.T
+        h = S.kappa('sqrt2') / 2
+        Qb = np.empty((T, T), dtype=object)
+        Qb[...] = zero
+        for col, (i, sg) in [(0, (0, -1)), (1, (1, -1)), (T - 2, (1, 1)), (T - 1, (0, 1))]:
+            for r in range(M):
+                Qb[r, col] = U0[r, i] * h
+            for r in range(N):
+                Qb[M + r, col] = V0[r, i] * h * sg
+        lam = [-s1, -s2, s2, s1]
+        if T == 5:
+            lam = [-s1, -s2, zero, s2, s1]
+            if N == 3:
+                for r in range(N):
+                    Qb[M + r, 2] = V0[r, 2]
+            else:
+                for r in range(M):
+                    Qb[r, 2] = U0[r, 2]
+            # the completion: scipy.linalg.qr of the first two columns of the 3x3 factor
+            W3 = V0 if N == 3 else U0
+            Rf = np.empty((3, 2), dtype=object)
+            Rf[...] = zero
+            Rf[0, 0] = Rf[1, 1] = one
+            stubs.register('qr', W3[:, :2].copy(), (W3, Rf))
+        stubs.register('eigh', B0, (np.array(lam, dtype=object), Qb))
+    return A0
+
+
+def h_svd_rect(ctx, M, N, D, P, fixed=False):
+    """rectangular SVD (2x3 wide, 3x2 tall): A0 = U0 [diag(s) 0] V0^T resp. U0 [diag(s); 0] V0^T.
+    UTPM.svd factorises B = [[0, A], [A^T, 0]] ((M+N) x (M+N)) with eigh -- eigenvalues
+    (-s1, -s2, 0, s2, s1), eigenvectors (u_i; -+v_i)/sqrt(2) and (0; v_3) resp. (u_3; 0) -- and
+    completes the larger orthogonal factor with qr_full of its first two columns.
+    fixed: the 3x3 rotation is one concrete rational rotation (everything else symbolic)"""
+    algopy = symx.load_algopy()
+    K = 2
+    assert (M, N) in ((2, 3), (3, 2))
+    zero = 0.0 if ctx.mode == 'float' else S.const(0)
+    one = 1.0 if ctx.mode == 'float' else S.const(1)
+    A0s = [svd_base(ctx, M, N, '%d' % p, fixed) for p in range(P)]
+    X = build_input(ctx, A0s, D, (M, N))
+    A = mk_utpm(ctx, algopy, X)
+    if ctx.mode == 'sym':
+        stubs.ALLOW_ORTHONORMAL_QR[0] = True
+    try:
+        U, s, Vv = algopy.svd(A)
+    finally:
+        stubs.ALLOW_ORTHONORMAL_QR[0] = False
+    Ud, sd, Vd = plain(U.data), plain(s.data), plain(Vv.data)
+    ctx.fact(Ud.shape == (D, P, M, M) and sd.shape == (D, P, K) and Vd.shape == (D, P, N, N), 'shapes')
+    for p in range(P):
+        Uc, Vc, Ac = coefs(Ud, p), coefs(Vd, p), coefs(X, p)
+        Sc = []
+        for d in range(D):
+            Sm = np.empty((M, N), dtype=object)
+            Sm[...] = zero
+            Sm[0, 0], Sm[1, 1] = sd[d, p, 0], sd[d, p, 1]
+            Sc.append(Sm)
+        USVt = ps_matmul(ps_matmul(Uc, Sc, D), tr(Vc), D)
+        UtU = ps_matmul(tr(Uc), Uc, D)
+        VtV = ps_matmul(tr(Vc), Vc, D)
+        for d in range(D):
+            ctx.eq(USVt[d], Ac[d], 'U diag(s) Vt == A order %d dir %d (%dx%d)' % (d, p, M, N))
+            ctx.eq(UtU[d], eye_series(M, D, ctx)[d], 'UtU == I order %d dir %d (%dx%d)' % (d, p, M, N))
+            ctx.eq(VtV[d], eye_series(N, D, ctx)[d], 'VtV == I order %d dir %d (%dx%d)' % (d, p, M, N))
         if ctx.mode == 'sym':
             ctx.holds(S.lift(sd[0, p, 0]) > S.lift(sd[0, p, 1]), 's_0 descending dir %d' % p)
             ctx.holds(S.lift(sd[0, p, 1]) > 0, 's_0 positive dir %d' % p)
@@ -623,9 +840,26 @@ def units(tier, seed):
         add('eigh/3x3/D2,P2', 'h_eigh', n=3, D=2, P=2)
     add('eigh/2x2 repeated eigenvalue, split at order 1/D3,P1', 'h_eigh_repeated', D=3, P=1)
     add('eigh/2x2 repeated eigenvalue, split at order 1/D2,P2', 'h_eigh_repeated', D=2, P=2)
+    add('eigh/2x2 eigenvalue repeated at orders 0 and 1, split at order 2/D3,P1', 'h_eigh_split_late', D=3, P=1)
+    add('eigh/3x3 repeated pair (lower), split at order 1/D2,P1', 'h_eigh_pair3', D=2, P=1, where='low')
+    add('eigh/3x3 repeated pair (upper), split at order 1/D2,P1', 'h_eigh_pair3', D=2, P=1, where='high')
+    # (order 3 with a symbolic rotation Q0 exceeds the time limit: one concrete rational rotation, everything else symbolic)
+    if tier != 'quick':
+        add('eigh/3x3 repeated pair (lower), split at order 1, concrete Q0/D3,P1', 'h_eigh_pair3', D=3, P=1, where='low', fixed_Q0=('1/2', '1/3', '-1/5'))
+        add('eigh/3x3 repeated pair (upper), split at order 1, concrete Q0/D3,P1', 'h_eigh_pair3', D=3, P=1, where='high', fixed_Q0=('-2/3', '1/4', '3/5'))
+        add('eigh/3x3 repeated pair (lower), split at order 1/D2,P2', 'h_eigh_pair3', D=2, P=2, where='low')
+        add('eigh/2x2 eigenvalue repeated at orders 0 and 1, split at order 2/D4,P1', 'h_eigh_split_late', D=4, P=1)
+        add('eigh/2x2 eigenvalue repeated at orders 0 and 1, split at order 2/D5,P1', 'h_eigh_split_late', D=5, P=1)
+        add('eigh/2x2 eigenvalue repeated at orders 0 and 1, split at order 2/D3,P2', 'h_eigh_split_late', D=3, P=2)
     if tier != 'quick':
         add('eigh/2x2 repeated eigenvalue, split at order 1/D4,P1', 'h_eigh_repeated', D=4, P=1)
     add('svd/2x2/D2,P1', 'h_svd', o={'crosscheck': False}, D=2, P=1)
+    # rectangular: (M+N) x (M+N) Jordan-Wielandt matrix with the eigenvalue 0, completion of the 3x3 factor by qr_full
+    for (M, N) in ((2, 3), (3, 2)):
+        add('svd/%dx%d/D1,P2' % (M, N), 'h_svd_rect', o={'crosscheck': False}, M=M, N=N, D=1, P=2)
+        add('svd/%dx%d, concrete 3x3 rotation/D2,P1' % (M, N), 'h_svd_rect', o={'crosscheck': False}, M=M, N=N, D=2, P=1, fixed=True)
+        if tier != 'quick':
+            add('svd/%dx%d/D2,P1' % (M, N), 'h_svd_rect', o={'unit_timeout': 1500, 'crosscheck': False, 'path_budget': 600}, M=M, N=N, D=2, P=1)
     if tier != 'quick':
         add('svd/2x2/D2,P2', 'h_svd', o={'unit_timeout': 1500, 'crosscheck': False, 'path_budget': 600}, D=2, P=2)
     # Fortran-ordered coefficient matrices (and single-column operands): the layout that LAPACK
